@@ -35,6 +35,12 @@ def err_variant(t):
         return None, e
     return None, t
 
+def _returns_verdict_of(r, suffix):
+    """The path returns the named call's own Result through Ok-preserving plumbing (map / map_err): Ok exactly when it is Ok."""
+    from interp import peel
+    root = peel(r.ret)
+    return r.okness is None and isinstance(root, tuple) and bool(root) and root[0] == "call" and root[1].endswith(suffix)
+
 def run(ctx):
     w = ctx.world
     # ---------------- R12.1
@@ -82,7 +88,7 @@ def run(ctx):
             if r.kind == "return" and r.okness is not False:
                 if iu is None or idd is None or iv is None:
                     probs.append("an Ok exit does not pass through unseal, decode and validate")
-                elif not took_ok("Validate>::validate", len(evs)):
+                elif not took_ok("Validate>::validate", len(evs)) and not _returns_verdict_of(r, "Validate>::validate"):
                     probs.append("an Ok exit does not take the success edge of the validator")
         if not saw_decode or not saw_validate:
             probs.append("decode / validate calls not found (anchor changed)")
